@@ -6,8 +6,10 @@ Driver of C18. Two case kinds (payload, space separated):
 
 * `L <src-hex>` — result: `pos,line,col` of every token the lexer emits (comments, EOF and
   error token included), joined by single spaces.
-* `E <P|R|X> <src-hex> <off> [<calloff>]` — a program with a planted parse (`P`) or runtime (`R`)
-  error, or a runtime error the program catches itself (`X`), whose offending token starts at
+* `E <P|R|X|A|Y> <src-hex> <off> [<calloff>]` — a program with a planted parse (`P`) or runtime (`R`)
+  error, or a runtime error the program catches itself (`X`); `A` / `Y`: the same two for a failed
+  variable / container access or import, which the code reports WITHOUT position (known finding
+  access-errors-unpositioned: result `unpositioned`, `spec=` the positioned answer). The offending token starts at
   byte offset `off` (`eof`: the EOF token). Result: `line,col` of that token in the lexer model,
   once per observable (P: Line/Pos fields, numbers in the message text; R: fields, text, node
   line/linepos in MarshalJSON; X: `e.line`, `e.pos` of the except object) and, with `calloff`, the
@@ -16,6 +18,10 @@ Driver of C18. Two case kinds (payload, space separated):
 * `B <src-hex> <markoff>` — a break point set (by the harness, on the real debugger) at the true
   line of a marked statement; result: `pos,line` of the node the thread is suspended on = the
   marked token.
+
+* `B2 <src-hex> <off1> <off2> <both|dis|rm>` — two marked statements; the second break point stays
+  active, is disabled (DisableBreakPoint) or removed (RemoveBreakPoint) before the run; result: the
+  node of every suspension in order (`-` for the deactivated one).
 
 * `U <lo> <hi>` — sweep: unicode.IsSpace / IsControl / IsNumber and utf8.DecodeRune against the
   model's `isSpace` / `isControl` / `isNumber` / `decodeRune` for every code point of the range
@@ -184,7 +190,7 @@ def errCase (kind : String) (src : List Nat) (off : String) (calloff : Option St
     else match off.toNat? with
       | some o => toks.find? fun t => t.pos = o && real t
       | none => none
-  let n := if kind = "P" then 2 else if kind = "R" then 3 else 1
+  let n := if kind = "P" then 2 else if kind = "R" || kind = "A" then 3 else 1
   match tok? with
   | none => "no-token-at-offset"
   | some t =>
@@ -202,7 +208,15 @@ def errCase (kind : String) (src : List Nat) (off : String) (calloff : Option St
             else some [{ model := l, spec := s!"{lineOf inp o}", alts := [l], deviates := true, cls := "unexplained-position", isEof := false }]
     match call with
     | none => "no-call-token-at-offset"
-    | some cj => render (List.replicate n j ++ cj) (t.line > 1)
+    | some cj =>
+      let js := List.replicate n j ++ cj
+      if kind = "A" || kind = "Y" then
+        -- known finding access-errors-unpositioned: the code as it is reports no position at all;
+        -- asked for (and accepted from a repaired tree): the position of the identifier / import
+        -- token, token by token as in kinds R / X
+        "unpositioned\tnt=1\tkf=access-errors-unpositioned\tspec=" ++ " ".intercalate (js.map (·.model))
+          ++ (if js.all (·.alts.length ≤ 1) then "" else "\talt=" ++ " ".intercalate (js.map fun x => "|".intercalate x.alts))
+      else render js (t.line > 1)
 
 /-- tokens the parser sees (comments are attached to nodes as meta data, never parsed) -/
 def parserToks (src : List Nat) : List Tok :=
@@ -259,6 +273,17 @@ def sweepCase (lo hi : Nat) : String :=
       + (if d.1 = cp && d.2 = b.length then 8 else 0)
     [hexDigit bits, hexDigit d.2])
 
+/-- `B2` cases: two marked statements, the break point of the second one active (`both`), disabled
+    (`dis`) or removed (`rm`) again: one suspension per active break point, in source order, each on
+    the marked token; `-` for the deactivated one. -/
+def break2Case (src : List Nat) (o1 o2 : Nat) (mode : String) : String :=
+  let a := breakCase src o1
+  let b := breakCase src o2
+  let fa := (a.splitOn "\t").headD a
+  let fb := (b.splitOn "\t").headD b
+  if (a.splitOn "\tkf=").length > 1 || (b.splitOn "\tkf=").length > 1 then a
+  else fa ++ " " ++ (if mode = "both" then fb else "-") ++ "\tnt=1"
+
 def runCase (payload : String) : String :=
   match payload.splitOn " " with
   | ["L", h] => match hexDecode h with
@@ -273,6 +298,9 @@ def runCase (payload : String) : String :=
   | ["U", lo, hi] => match lo.toNat?, hi.toNat? with
     | some lo, some hi => sweepCase lo hi
     | _, _ => "bad-payload"
+  | ["B2", h, o1, o2, mode] => match hexDecode h, o1.toNat?, o2.toNat? with
+    | some src, some a, some b => break2Case src a b mode
+    | _, _, _ => "bad-payload"
   | ["B", h, off] => match hexDecode h, off.toNat? with
     | some src, some o => breakCase src o
     | _, _ => "bad-payload"
